@@ -332,6 +332,33 @@ def _operation_selection(d: int, n: int, cfg: int, ast: bool) -> bool:
     return result(problem == "", NAME is not None)
 
 
+def _resolver_message(msg: str, code: int, where: int, cfg: int) -> bool:
+    """
+    pre: len(msg) <= 4
+    pre: -(10**6) <= code <= 10**6
+    pre: 0 <= where <= 2 and 0 <= cfg <= 1
+    post: _
+    """
+    # DATA-symbolic: the message and an extensions value of the resolver's error are symbolic and flow through the real executor, error bookkeeping and
+    # response building under tracing: they arrive unchanged (no formatting, no truncation, no interpretation of % { } \ characters), with the field's path
+    WH, C = concrete_int(where, 0, 2), concrete_int(cfg, 0, 1)
+    ext = {"code": code}
+    with untraced():
+        query, path = (("{ a bad }", ["bad"]), ("{ o { x bad } a }", ["o", "bad"]), ("{ l { bad } }", ["l", 0, "bad"]))[WH]
+    schema = failure_schema(msg, ext)
+    root = {"a": 1, "o": {"x": 1}, "l": [{"x": 1}]}
+    if C == 0:
+        res = graphql_blocking(schema, query, root=root)
+    else:
+        res = process_graphql_query(schema, query, executor_cls=Executor, root=root)
+    resp = res.response()
+    errs = resp.get("errors")
+    ok = isinstance(errs, list) and len(errs) == 1 and errs[0].get("message") == msg and errs[0].get("path") == path
+    ok = ok and isinstance(errs[0].get("message"), str) and dict(errs[0].get("extensions") or {}) == {"code": code}
+    ok = ok and "data" in resp
+    return result(ok, len(msg) > 0)
+
+
 RENDER_N = 4 if thorough() else 3
 
 
@@ -381,6 +408,13 @@ def _solve_line_separator(tier):
 
 
 CONDITIONS = [
+    Cond(
+        name="resolver_message", fn=_resolver_message, quick=120, thorough=300, per_path=120,
+        bound="the MESSAGE (every str of <= 4 symbolic characters) and an extensions value (symbolic int, abs <= 10**6) of a resolver's error flow through the real executors, error bookkeeping and response "
+              "building under tracing x 3 positions (root, nested, list item) x 2 executors: the response carries exactly one error with that message unchanged as a str, the field's path, the "
+              "extensions value unchanged, and data is present",
+        symbolic={"msg": "data: the error message", "code": "data: an extensions value", "where,cfg": "choice"}, witness={"msg": "%s{", "code": 7, "where": 1, "cfg": 0},
+    ),
     Cond(
         name="operation_selection", fn=_operation_selection, quick=60, thorough=60,
         bound="GetOperation as a product: 10 documents (anonymous / named, query / mutation, one or two operations, names differing in case only) x 8 operation names (absent, empty, matching, unknown, "
